@@ -55,8 +55,10 @@ HIST_RULE = ("PRNG install/drop histories through the public API on synthetic fu
              "Distinct by full line; non-trivial when the driver tags it with at least one of rep/cross/long-tramp/unwind")
 MACHINE_TB = TB_COMMON + [ISA_X86, "OS behaviour assumed: mmap returns a fresh zero-filled page-aligned region disjoint from existing mappings and from the target's entry bytes; mprotect/munmap do what they say; __clear_cache synchronises the given range (interposed by the shim, a no-op on x86-64)"]
 
+ASYNC_PIPE = {"name": "asyncs", "cmd": ["asyncs"], "n_quick": 300, "n_thorough": 20000, "timeout": 900, "timeout_thorough": 3400}
 TABLE["C02"] = {
-    "pipelines": [HIST_PIPE, {"name": "selfuse", "cmd": ["selfuse"], "n_quick": 1, "n_thorough": 1, "timeout": 300}],
+    "pipelines": [HIST_PIPE, {"name": "selfuse", "cmd": ["selfuse"], "n_quick": 1, "n_thorough": 1, "timeout": 300},
+                  dict(ASYNC_PIPE, own_keys_only=["c02."])],
     "fail_keys": ["c02."],
     "trusted_base": MACHINE_TB + ["Rust drop semantics (struct fields in declaration order after the Drop impl runs; Vec::pop order) as read by translate/layout.py"],
     "rule": HIST_RULE + "; plus three scenarios in which a libc function the library itself calls while restoring (sysconf, mprotect, munmap) is the faked target, with a fake that does the real work by raw system call",
@@ -64,9 +66,10 @@ TABLE["C02"] = {
     "level_text": "Theorem C02_restores: for every install history (any length, repeated and overlapping targets, any payload kinds) the drop order extracted from the source (newest first) restores every byte outside the unmapped trampoline pages, the mapping set, and leaves no guard; proved by a LIFO induction. The model is replayed against real histories run through the public API (bytes of every entry, trampoline bytes, OS call sequence, call results before/after drop, drop by unwinding).",
     "level_note": "Trusted: Lean kernel, translator's reading of the Drop impl, shadow build, /proc/self/maps and forked-child observation. Modelled not verified: all Rust code.",
 }
+ARM_FRAME_KEYS = ["a32.frame", "a64.frame", "a64.tramp.overrun", "a64.entry.refused-but-written"]
 TABLE["C03"] = {
-    "pipelines": [HIST_PIPE],
-    "fail_keys": ["c03."],
+    "pipelines": [HIST_PIPE, {"name": "enc-arm", "cmd": ["enc-arm"], "n_quick": 2000, "n_thorough": 100000, "timeout_thorough": 3000, "own_keys_only": ARM_FRAME_KEYS}],
+    "fail_keys": ["c03."] + ARM_FRAME_KEYS,
     "trusted_base": MACHINE_TB,
     "rule": HIST_RULE + "; C03 predicate: every arena byte outside the 16-byte slots of named targets equals its snapshot after every operation, never-named targets keep their bytes, hash of all r-x file-backed mappings unchanged after drop",
     "assumptions": ["freshness of trampoline mappings"],
@@ -104,7 +107,7 @@ TABLE["C06"] = {
     "trusted_base": TB_COMMON + ["AtomicUsize::fetch_add is atomic, so every thread interleaving is a linearisation (a list of calls)", "the real fake! macro and CallCountVerifier run through the shadow crate; panic messages classified by substring"],
     "rule": "every N in 0..6 (0..64 thorough) x k in 0..N+2 matching calls with PRNG-inserted non-matching calls on one thread (exact sequence compared), then PRNG (N, k) split over 2-16 threads behind a barrier (counts, per-thread order, exit verdict compared); thorough adds a 16-thread 100k-call hammer; lines tagged life belong to C07; plus, for every `times` arm of the macro found in macros.rs, the compiled instantiation driven through m^N x m m with admission, rejection and exit verdict judged against the counter of the common meaning (keys c06.arm-*). Distinct by full line; non-trivial = driver tag other than bad-line",
     "assumptions": ["atomicity of fetch_add", "panics in safe-ABI fakes unwind"],
-    "filter_prefix": ["cnt", "armrun"],
+    "filter_prefix": ["cnt", "armrun", "armhammer"],  # cnt, cnthammer, cntshared
     "level_text": "Theorems over all N and all schedules (lists of calls = linearisations over any number of threads): a matching call is admitted iff fewer than N matching calls precede it (C06_admit), non-matching calls always panic and are never counted (C06_reject, C06_final), outcome counts depend only on k and N (C06_split), exit verdict panics iff k != N naming both and never while unwinding (C06_exit, tied to verifier.rs by the translator). Each macro arm is linked to this counter model by C08. Correspondence: real macro, real threads.",
     "level_note": "Trusted: Lean kernel, atomicity assumption, translator's reading of verifier.rs; liveness/fairness not claimed.",
 }
@@ -167,7 +170,7 @@ SIG_RULE = ("a family of 43 function-pointer types differing in arity (0-3), one
 TABLE["C09"] = {
     "pipelines": [SIG_PIPE, {"name": "arms", "kind": "armgen", "own_keys_only": ["c09."]}],
     "fail_keys": ["c09."],
-    "filter_prefix": ["sigty", "sigpair", "sigmix", "signull", "sigasync", "armrun"],
+    "filter_prefix": ["sigty", "sigpair", "sigmix", "signull", "sigasync", "armrun", "armhammer"],
     "trusted_base": TB_COMMON + ["std::any::type_name renders types by the token grammar of Model/Sig.lean with the spelling of Driver/SigD.spell (validated on the family; lifetimes and `for<..>` binders stripped before comparison)", "the step from distinct token lists to distinct strings"],
     "rule": SIG_RULE,
     "assumptions": ["rustc's rendering of types outside the family follows the same grammar"],
@@ -186,7 +189,7 @@ TABLE["C10"] = {
 }
 
 TABLE["C14"] = {
-    "pipelines": [{"name": "asyncs", "cmd": ["asyncs"], "n_quick": 300, "n_thorough": 20000, "timeout": 900, "timeout_thorough": 3400}],
+    "pipelines": [ASYNC_PIPE],
     "fail_keys": ["c14."],
     "trusted_base": MACHINE_TB + ["rustc gives every concrete future type its own non-inlined `poll` (opt-level 0, as the README prescribes) and `fn() -> Poll<T>` is ABI-compatible with `poll(Pin<&mut F>, &mut Context)` for the outputs used, incl. by-memory ones: observed by the runs, not modelled", "hand-written executor counting polls"],
     "rule": "PRNG histories of 3-14 operations (fake site 0/1, await with random argument, drop+new injector) over seven sibling async functions: free fns and a method, by-value and by-reference parameters, outputs unit / u32 (two functions with the same output type) / String / u64 / a 72-byte struct with a heap field / bool; every history ends with a drop and an await of all seven; per await: poll count, value digest, body-run counter of the awaited function and of all others, value-expression evaluation counter. Each history in a forked child. Distinct by history; non-trivial when it contains a faked await",
